@@ -284,6 +284,9 @@ HIST_CASES = [
     ([('a:::b', 'Output'), ('D', 'Always')], [('D', 'a:::b')], ['a', 'a!!!', 'a!!!D', 'x:::y', 'x:::y!!!', 'x:::y!!!D']),
     ([('a:::b', 'Output')], [], ['b:::c', 'b:::c!!!', 'x:::y', 'x:::y!!!']),
     ([('a:::b', 'Output'), ('c', 'Output')], [], ['a:::b:::c', 'a:::b:::c!!!', 'b', 'b!!!', 'b!!!c']),
+    # a dependency both of whose ends are absent from the current graph
+    ([('A', 'Output'), ('B', 'Output')], [('B', 'A')], ['Y', 'Y!!!', 'Z', 'Z!!!', 'Y!!!Z', 'A!!!Z', 'Y!!!B']),
+    ([('A', 'Ephemeral'), ('B', 'Always')], [('B', 'A')], ['Y', 'Y!!!', 'Z', 'Z!!!', 'Y!!!Z']),
 ]
 
 
@@ -318,7 +321,7 @@ def universes(family, tier, seed):
         big = [('chain', 600, ['OOO', 'EEO', 'AOE', 'OEE', 'EOA']), ('chain', 2000, ['OOO', 'OEE']), ('layers', [20, 30], ['OOO', 'EOE', 'AEO']),
                ('fan', 600, ['OOO', 'AEO', 'EEO', 'OEO']),
                ('etail', [2, 48], ['OOO', 'AOO']), ('etail', [1, 600], ['OOO']), ('etail', [3, 20], ['OOO']),
-               ('echain', 300, ['OOO']), ('elayers', [2, 48], ['OOO', 'AOO']), ('elayers', [3, 30], ['OOO'])]
+               ('echain', 300, ['OOO']), ('elayers', [2, 48], ['OOO', 'AOO', 'OAO']), ('elayers', [3, 30], ['OOO', 'OAO'])]
         if tier == 'thorough':
             big += [('chain', 4000, ['OOO', 'EEO', 'AOE']), ('layers', [40, 100], ['OOO', 'EOE']), ('fan', 4000, ['OOO', 'AEO']),
                     ('chain', 1500, ['OEE', 'EOA', 'AEO', 'OEO']), ('layers', [100, 12], ['OEO', 'AOE']),
@@ -353,7 +356,8 @@ def universes(family, tier, seed):
         jobs = []
         for n in (1, 2, 3):
             for nodes, edges in H.all_instances(n):
-                modes = ['ident', 'rel'] if (tier == 'thorough' or family == 'H-EVAL2') else ['ident']
+                # H-EVAL2 under the consumer-dependent comparison (which subsumes rel); H-RESUME under rel in thorough
+                modes = (['ident', 'reld'] + (['rel'] if tier == 'thorough' else [])) if family == 'H-EVAL2' else (['ident', 'rel'] if tier == 'thorough' else ['ident'])
                 for mode in modes:
                     jobs.append({'family': family, 'nodes': nodes, 'edges': edges, 'mode': mode})
         if family == 'H-EVAL2':
